@@ -274,7 +274,10 @@ Qed.
    can be -- one unit for i64 (truncation), a relative 2^-40 for f64 (rounding) *)
 Definition band_ok_b (fw : wty) (tot mn mx : Z) : bool :=
   match fw with
-  | I64 => (99 * tot - 200 <=? 200 * mn) && (200 * mx <=? 101 * tot + 200)
+  | I64 => if tot <? 2 ^ 46
+           then (99 * tot - 200 <=? 200 * mn) && (200 * mx <=? 101 * tot + 200)
+           else (2 ^ 40 * (100 * (tot - 2 * mn)) <=? (2 ^ 40 + 1) * tot + 2 ^ 40 * 200)
+                && (2 ^ 40 * (100 * (2 * mx - tot)) <=? (2 ^ 40 + 1) * tot + 2 ^ 40 * 200)
   | F64 _ => (2 ^ 40 * (100 * (tot - 2 * mn)) <=? (2 ^ 40 + 1) * tot)
              && (2 ^ 40 * (100 * (2 * mx - tot)) <=? (2 ^ 40 + 1) * tot)
   end%Z.
@@ -317,13 +320,13 @@ Qed.
    the weight (i64: plus one unit; f64: no unit), or slab [p] strictly contains
    the half-weight mark *)
 Definition band_of (fw : wty) : Z -> Z -> Prop :=
-  match fw with I64 => band_unit | F64 _ => band_rel 40 end.
+  match fw with I64 => band_i64 | F64 _ => band_rel 40 end.
 Definition bal_strong (fw : wty) (tot wl sr sl : Z) : Prop :=
   band_of fw tot wl \/ (2 * wl < tot <= 2 * (wl + sr))%Z.
 
 Lemma bal_strong_prop fw tot wl sr sl : bal_strong fw tot wl sr sl -> bal_prop fw tot wl sr sl.
 Proof.
-  unfold bal_strong, bal_prop, band_of. destruct fw; unfold bal_unit, bal_rel, adjacent; intros [H|H]; auto; right; left; lia.
+  unfold bal_strong, bal_prop, band_of. destruct fw; unfold bal_i64, bal_rel, adjacent; intros [H|H]; auto; right; left; lia.
 Qed.
 
 Lemma median_post_balanced fw tolb ws tot mn mx p w :
@@ -338,7 +341,9 @@ Proof.
   exists s. split; [exact Hs|]. unfold bal_strong.
   destruct Hb as [Hb|(Hlt & Hb)].
   - left. unfold band_of, band_ok_b in *. destruct fw.
-    + unfold band_unit. lia.
+    + unfold band_i64. destruct (tot <? 2 ^ 46)%Z.
+      * unfold band_unit. lia.
+      * unfold band_unit_rel. change (2 ^ 40)%Z with 1099511627776%Z in *. lia.
     + unfold band_rel. change (2 ^ 40)%Z with 1099511627776%Z in *. lia.
   - right. destruct Hb as [Hb|Hb].
     + (* last slab: everything above the cut *)
